@@ -112,6 +112,19 @@ func setLoop(p *Prog, r *Report, rule string) (*FuncInfo, *Flat, *ast.RangeStmt)
 		}
 	}
 	if loop == nil {
+		// the directory loop in a helper of the use case (place): the helper is spliced into the graph
+		for _, body := range p.deepBodies(fi)[1:] {
+			for _, rs := range rangeLoops(body) {
+				if c, ok := ast.Unparen(rs.X).(*ast.CallExpr); ok && p.callIs(fi.Pkg, c, kDirsIterate) {
+					loop = rs
+				}
+			}
+		}
+		if loop != nil {
+			f = p.FlatInlExcept(fi, kContentStore, kCFStore, kCoreStore)
+		}
+	}
+	if loop == nil {
 		// no iterator loop: plain analysis
 		return fi, f, nil
 	}
@@ -224,6 +237,13 @@ func c10Retry(p *Prog, r *Report) {
 		if s.Kind != "assigned" {
 			r.Viol("C10.a", kStoreSet+"#retry", p.pos(s.Call), "the error of the content store is "+s.Kind)
 			continue
+		}
+		// the source: the variable the content store reads from (Set's parameter, or the parameter of the helper
+		// that holds the loop)
+		if len(s.Call.Args) == 3 {
+			if o := objOf(info, s.Call.Args[2]); o != nil {
+				contentParam = o
+			}
 		}
 		st := f.ErrStatesFrom(s.Node, s.ErrVar)
 		// nodes reached in the not-enough-space state and leading back to the loop head
